@@ -47,9 +47,9 @@ Print Assumptions C12_rejections_perip.
 
 (* ServeConn with all slots taken: 503, closed, concurrency and open as before, its per-IP unit given back. *)
 Theorem C12_rejections_serveconn : forall cf s c r, reach cf s -> nth_error (conns s) c = Some r -> ph r = PChecked -> cvia r = VConn ->
-  effConc cf <= concurrency s ->
+  effConc cf <= concurrency s -> forall e,
   exists s1 s2 s3 r3, step cf s (LTryAcquire c) = Some s1 /\ step cf s1 (LAcquireFail c) = Some s2 /\
-    step cf s2 (LRejectConc c) = Some s3 /\
+    step cf s2 (LRejectConc c e) = Some s3 /\
     nth_error (conns s3) c = Some r3 /\ rejected_with StatusServiceUnavailable r3 /\
     concurrency s3 = concurrency s /\ open s3 = open s /\
     (forall ip, perip s3 ip = if reg r && N.eqb ip (cip r) then norm (sumf (w_ip ip) (conns s) - 1) else perip s ip).
@@ -58,10 +58,10 @@ Print Assumptions C12_rejections_serveconn.
 
 (* Serve with every worker of its pool busy: wp.Serve cannot succeed; 503, closed, the open count taken back. *)
 Theorem C12_rejections_serve : forall cf s c r k lp, reach cf s -> nth_error (conns s) c = Some r -> ph r = POpened -> cvia r = VServe k ->
-  nth_error (loops s) k = Some lp -> ready lp <= 0 -> effConc cf <= wcount lp ->
+  nth_error (loops s) k = Some lp -> ready lp <= 0 -> effConc cf <= wcount lp -> forall e,
   step cf s (LGetChOk c) = None /\
   exists s1 s2 s3 r3, step cf s (LGetChFail c) = Some s1 /\ step cf s1 (LRejectDec c) = Some s2 /\
-    step cf s2 (LRejectConc c) = Some s3 /\
+    step cf s2 (LRejectConc c e) = Some s3 /\
     nth_error (conns s3) c = Some r3 /\ rejected_with StatusServiceUnavailable r3 /\
     concurrency s3 = concurrency s /\ open s3 = open s - 1 /\
     (forall ip, perip s3 ip = if reg r && N.eqb ip (cip r) then norm (sumf (w_ip ip) (conns s) - 1) else perip s ip).
@@ -77,7 +77,7 @@ Theorem C12_rejections_only_move : forall cf s c r l s', reach cf s -> nth_error
   | PIPOver => l = LRejectIP c
   | PConcOver => l = LAcquireFail c
   | PNoWorker => l = LRejectDec c
-  | PRejecting => l = LRejectConc c
+  | PRejecting => exists e, l = LRejectConc c e
   | _ => True
   end.
 Proof. exact only_move_when_rejecting. Qed.
@@ -122,10 +122,29 @@ Print Assumptions C12_getters_never_negative.
 
 (* perIPConn.Close is idempotent (first LTS: the wrapper is identified with its connection; see the wrapper objects below). *)
 Theorem C12_close_idempotent : forall cf s c r s', nth_error (conns s) c = Some r -> closed r = true -> reg r = false ->
-  step cf s (LUserClose c) = Some s' ->
+  forall e, step cf s (LUserClose c e) = Some s' ->
   concurrency s' = concurrency s /\ open s' = open s /\ perip s' = perip s /\ conns s' = conns s /\ loops s' = loops s.
 Proof. exact close_idempotent. Qed.
 Print Assumptions C12_close_idempotent.
+
+(* The outcome of the underlying net.Conn.Close (ok | error: a tls.Conn that cannot send close_notify, a custom connection) is part of every
+   closing label (LRejectConc / LCloseAfter / LHijackDone / LUserClose c cerr), so every theorem above - the bounds, exact accounting, balance,
+   the getters - covers connections whose Close fails.  Explicitly: the outcome makes no difference to any step, and a registered connection
+   whose first Close fails has given its per-IP unit back all the same (a later Close could not: the wrapper has cleared its Conn). *)
+Theorem C12_close_outcome_irrelevant : forall cf s c,
+  step cf s (LRejectConc c true) = step cf s (LRejectConc c false) /\
+  step cf s (LCloseAfter c true) = step cf s (LCloseAfter c false) /\
+  step cf s (LHijackDone c true) = step cf s (LHijackDone c false) /\
+  step cf s (LUserClose c true) = step cf s (LUserClose c false).
+Proof. exact close_outcome_irrelevant. Qed.
+Print Assumptions C12_close_outcome_irrelevant.
+
+Theorem C12_failed_close_unregisters : forall cf s c r s', reach cf s -> nth_error (conns s) c = Some r -> reg r = true ->
+  step cf s (LUserClose c true) = Some s' ->
+  perip s' (cip r) = norm (sumf (w_ip (cip r)) (conns s) - 1) /\
+  exists r', nth_error (conns s') c = Some r' /\ reg r' = false /\ closed r' = true.
+Proof. exact failed_close_unregisters. Qed.
+Print Assumptions C12_failed_close_unregisters.
 
 (* ---- the wrapper objects (second LTS of Model/Limits.v: perIPConn objects keep their identity) ---------------------------------
    Every Close closes the connection the object was acquired for, and only the first one does anything: for any number of
@@ -147,8 +166,8 @@ Definition a2 := ATcp [2;2;2;2]%N.
 
 Definition serve_one (c : nat) (a : addr) (k : nat) : list label :=
   [LAccept k a; LRegister c; LOpenInc c; LGetChOk c; LStart c].
-Definition end_serve (c : nat) : list label := [LFinish c; LCleanupOpen c; LCleanupConc c; LCloseAfter c; LWorkerRelease c].
-Definition end_sc (c : nat) : list label := [LFinish c; LCleanupOpen c; LCloseAfter c; LReleaseConc c].
+Definition end_serve (c : nat) : list label := [LFinish c; LCleanupOpen c; LCleanupConc c; LCloseAfter c false; LWorkerRelease c].
+Definition end_sc (c : nat) : list label := [LFinish c; LCleanupOpen c; LCloseAfter c false; LReleaseConc c].
 
 Example C12_ex_quiescent_one_serve_running :
   match run (mkCfg 2 1 false) init ([LServeStart] ++ serve_one 0 a1 0 ++ serve_one 1 a2 0 ++ end_serve 0 ++ end_serve 1) with
@@ -182,20 +201,31 @@ Example C12_ex_429_and_503 :
   match run (mkCfg 1 1 false) init
         ([LServeConn a1; LRegister 0; LTryAcquire 0; LOpenInc 0;
           LServeConn a1; LRegister 1; LRejectIP 1;
-          LServeConn a2; LRegister 2; LTryAcquire 2; LAcquireFail 2; LRejectConc 2;
+          LServeConn a2; LRegister 2; LTryAcquire 2; LAcquireFail 2; LRejectConc 2 true;
           LServeStart; LAccept 0 a2; LRegister 3; LOpenInc 3; LGetChOk 3; LStart 3;
-          LAccept 0 AOther; LOpenInc 4; LGetChFail 4; LRejectDec 4; LRejectConc 4]) with
+          LAccept 0 AOther; LOpenInc 4; LGetChFail 4; LRejectDec 4; LRejectConc 4 false]) with
   | Some s => map resp (conns s) = [0; 429; 503; 0; 503] /\ n_serving s = 2 /\ get_open s = 2 /\ get_concurrency s = 2
               /\ perip s 16843009%N = Some 1 /\ perip s 33686018%N = Some 1
   | None => False
   end.
 Proof. vm_compute. repeat split; reflexivity. Qed.
 
+(* MaxConnsPerIP = 1: three connections of one address one after the other, each Close of the underlying connection fails; every one is admitted *)
+Example C12_ex_failed_closes_do_not_lock_the_address_out :
+  match run (mkCfg 2 1 false) init
+        ([LServeConn a1; LRegister 0; LTryAcquire 0; LOpenInc 0; LFinish 0; LCleanupOpen 0; LCloseAfter 0 true; LReleaseConc 0] ++
+         [LServeStart; LAccept 0 a1; LRegister 1; LOpenInc 1; LGetChOk 1; LStart 1; LFinish 1; LCleanupOpen 1; LCleanupConc 1; LCloseAfter 1 true; LWorkerRelease 1] ++
+         [LServeConn a1; LRegister 2; LTryAcquire 2; LOpenInc 2]) with
+  | Some s => map resp (conns s) = [0; 0; 0] /\ n_serving s = 1 /\ perip s 16843009%N = Some 1
+  | None => False
+  end.
+Proof. vm_compute. repeat split; reflexivity. Qed.
+
 Example C12_ex_hijack_keeps_only_the_perip_unit :
   match run (mkCfg 1 1 false) init
-        [LServeConn a1; LRegister 0; LTryAcquire 0; LOpenInc 0; LHijack 0; LCleanupOpen 0; LCloseAfter 0; LReleaseConc 0] with
+        [LServeConn a1; LRegister 0; LTryAcquire 0; LOpenInc 0; LHijack 0; LCleanupOpen 0; LCloseAfter 0 false; LReleaseConc 0] with
   | Some s => all_done s = true /\ all_terminal s = false /\ get_open s = 0 /\ get_concurrency s = 0 /\ perip s 16843009%N = Some 1
-              /\ match step (mkCfg 1 1 false) s (LHijackDone 0) with
+              /\ match step (mkCfg 1 1 false) s (LHijackDone 0 true) with
                  | Some s' => all_terminal s' = true /\ perip s' 16843009%N = None
                  | None => False
                  end
